@@ -314,6 +314,14 @@ impl GlobalEnvironment {
     }
 }
 
+/// Verification hooks (feature `verif`).
+#[cfg(feature = "verif")]
+impl GlobalEnvironment {
+    pub fn verif_bindings(&self) -> &HashMap<usize, usize> {
+        &self.bindings
+    }
+}
+
 impl Default for GlobalEnvironment {
     fn default() -> Self {
         Self::new()
